@@ -35,7 +35,7 @@ from runner import Case
 PROP = "C06"
 TITLE = "Anything built through the API encodes to valid TOML that decodes back"
 COQ_PROPS = "Props/C06.v"
-COQ_PROPS_EXTRA = ["Props/C06toml.v"]
+COQ_PROPS_EXTRA = ["Props/C06toml.v", "Props/C06float.v"]
 DRIVER_NAME = "c06"
 HARNESS = {"bin": "c06"}
 EXTRA_HARNESS = {"dev": ("dev", ())}      # the same scripts against a build with debug assertions and overflow checks
